@@ -25,9 +25,9 @@ NONEMPTY = 'B::USIZE >= 1'
 
 def trait_fns():
     return {
-        'remaining': FnC(ret='r', props=('C11', 'C13'), ensures=[
-            ('exact', ('C11',), 'r is Some ==> r->Some_0 as int == pow256(Self::wbytes()) - 1 - Self::pos(cn)'),
-            ('none_only_if_unrepresentable', ('C11',), 'r is None ==> pow256(Self::wbytes()) - 1 - Self::pos(cn) > usize::MAX')]),
+        'remaining': FnC(ret='r', props=('C10', 'C11', 'C13'), ensures=[
+            ('exact', ('C10', 'C11'), 'r is Some ==> r->Some_0 as int == pow256(Self::wbytes()) - 1 - Self::pos(cn)'),
+            ('none_only_if_unrepresentable', ('C10', 'C11'), 'r is None ==> pow256(Self::wbytes()) - 1 - Self::pos(cn) > usize::MAX')]),
         'next_block': FnC(ret='r', props=P + ('C11',), requires=[NONEMPTY], ensures=[
             ('out', P, 'r@ == ctr_layout(Self::base(old(cn)), Self::pos(old(cn)), Self::wbytes(), Self::big_endian())'),
             ('advance', P + ('C11', 'C10'), 'Self::pos(final(cn)) == (Self::pos(old(cn)) + 1) % pow256(Self::wbytes())'),
@@ -178,7 +178,7 @@ def flavor_fns(cs, ty, be):
         }
 ''' % d
     return {
-        'remaining': FnC(props=('C11', 'C13'), inherits=True, stmts={'0': 'proof { pow256_values(); }'}),
+        'remaining': FnC(props=('C10', 'C11', 'C13'), inherits=True, stmts={'0': 'proof { pow256_values(); }'}),
         'current_block': FnC(props=P + ('C09',), inherits=True,
                              stmts={'0': pre, '1.0.1': cur_body_pre, '1.0.end': cur_body_post, '2': cur_end},
                              loops={0: cur_inv}),
@@ -246,7 +246,7 @@ def core_mod():
     open spec fn kstep(&self) -> KStep { %s }
     open spec fn klimit(&self) -> Option<int> { Some(pow256(%s::wbytes()) - 1 - %s::pos(&self.ctr_nonce)) }
 ''' % (kabs_core, kstep_core, fc, fc), fns={
-            'remaining_blocks': FnC(props=('C11', 'C13'), inherits=True),
+            'remaining_blocks': FnC(props=('C10', 'C11', 'C13'), inherits=True),
             'process_with_backend': FnC(props=('C07', 'C04'), inherits=True, note='plumbing')}),
         Sel('impl StreamCipherSeekCore for CtrCore', members='''
     open spec fn counter_val(c: F::Backend) -> int { %(f)s::backend_val(c) }
